@@ -183,10 +183,14 @@ pub struct Knobs {
     pub endless_len: Option<usize>,
     pub allow_nan: bool,
     pub take_optional: Option<bool>,
+    /// percentage of flag values that avoid the bits selecting else-if chains / nested conditionals
+    /// (shapes whose size the library is known to compute wrongly, see known_findings.json); keeps that
+    /// known defect from ending most sessions early
+    pub avoid_cond_flag_branches: u64,
 }
 impl Default for Knobs {
     fn default() -> Self {
-        Knobs { max_arr: 3, max_str: 12, size_budget: 2000, endless_len: None, allow_nan: false, take_optional: None }
+        Knobs { max_arr: 3, max_str: 12, size_budget: 2000, endless_len: None, allow_nan: false, take_optional: None, avoid_cond_flag_branches: 0 }
     }
 }
 
@@ -269,6 +273,29 @@ fn collect_cond_values(ms: &[Member], var: &str, out: &mut Vec<String>) {
                 collect_cond_values(&i.else_members, var, out);
             }
             Member::Optional(_, ms) => collect_cond_values(ms, var, out),
+            _ => {}
+        }
+    }
+}
+
+/// enumerators of `var` that select an else-if chain or a branch with a nested conditional
+fn collect_defect_cond_values(ms: &[Member], var: &str, out: &mut Vec<String>) {
+    for m in ms {
+        match m {
+            Member::If(i) => {
+                let nested = i.members.iter().any(|m| matches!(m, Member::If(_)));
+                if (!i.else_ifs.is_empty() || nested) && i.conds.first().map(|c| c.op == "&" && c.var == var).unwrap_or(false) {
+                    for c in i.conds.iter().chain(i.else_ifs.iter().flat_map(|(c, _)| c.iter())) {
+                        out.push(c.val.clone());
+                    }
+                }
+                collect_defect_cond_values(&i.members, var, out);
+                for (_, m) in &i.else_ifs {
+                    collect_defect_cond_values(m, var, out);
+                }
+                collect_defect_cond_values(&i.else_members, var, out);
+            }
+            Member::Optional(_, ms) => collect_defect_cond_values(ms, var, out),
             _ => {}
         }
     }
@@ -1000,6 +1027,13 @@ impl<'a, 'c> Enc<'a, 'c> {
                         v |= definer_lookup(d, n).unwrap_or(0);
                     }
                 }
+            }
+        }
+        if self.k.avoid_cond_flag_branches > 0 && self.rng.below(100) < self.k.avoid_cond_flag_branches {
+            let mut dv = Vec::new();
+            collect_defect_cond_values(&c.members, var, &mut dv);
+            for n in &dv {
+                v &= !definer_lookup(d, n).unwrap_or(0);
             }
         }
         self.shape.push(format!("{}={:#x}", var, v));
